@@ -567,9 +567,16 @@ def sizes_for(L, S):
     return sorted(ns)
 
 
-def part_lists(n, kmax):
-    if n <= 12:
+def part_lists(n, kmax, marks=()):
+    if n <= 6:
         return compositions(n, kmax)
+    if n <= 12:
+        # all 1- and 2-part compositions; 3-part ones whose first cut or second cut falls next to a threshold
+        out = compositions(n, min(kmax, 2))
+        if kmax >= 3:
+            near = {m + d for m in marks for d in (-1, 0, 1)}
+            out += [[a, b, n - a - b] for a in range(1, n) for b in range(1, n - a) if a in near or a + b in near]
+        return out
     cand = [[n], [1, n - 1], [n - 1, 1], [n // 2, n - n // 2], [1000, n - 1000], [1024, n - 1024], [1, 1023, n - 1024], [512, 512, n - 1024]]
     out = []
     for c in cand:
@@ -597,7 +604,7 @@ def cases(tier):
                                 if addon == "bracket" and fr in ("cl", "h2cl"):
                                     continue  # a length-changing callable needs a framing that can carry it
                                 for n in sizes_for(L, S):
-                                    pls = part_lists(n, kmax)
+                                    pls = part_lists(n, kmax, [v for v in (SIZES[L], SIZES[S]) if v])
                                     if proto == "h2" and tier == "quick":
                                         pls = [p for p in pls if len(p) <= 1 or p[0] in (1, n - 1)]
                                     for parts in pls:
@@ -639,11 +646,25 @@ def run(ctx):
         "body_size_limit": ["-", "5", "1k"], "stream_large_bodies": ["-", "3", "8"], "store_streamed_bodies": [False, True],
         "addon_stream": ["none", "true", "upper", "list", "buffer", "bracket"],
         "sizes": "0, 1, L-1, L, L+1, 2L, S, S+1 (1k: 1023, 1024, 1025, 2048)", "max_parts": ctx.pick(2, 3),
-        "chunking": "every composition into <= max_parts parts for n <= 12, 8 fixed splits for n >= 1023; h1 additionally all parts in one TCP segment; Expect: 100-continue variant",
+        "chunking": "every composition into <= max_parts parts for n <= 6; for 7 <= n <= 12 every composition into <= 2 parts plus the 3-part ones with a cut within 1 of a threshold; 8 fixed splits for n >= 1023; h1 additionally all parts in one TCP segment; Expect: 100-continue variant",
+        "quick_tier": "sub-product (see _quick_keeps): every value of every dimension occurs; thorough is the full product",
         "cases": len(cs),
     }
-    ctx.log("%d cases" % len(cs))
-    par.pmap_tally(chunk_fn, cs, ctx.tally, nchunks=64)
+    nproc = pool_size()
+    ctx.log("%d cases, %d workers" % (len(cs), nproc))
+    par.pmap_tally(chunk_fn, cs, ctx.tally, nchunks=64, nproc=nproc)
+
+
+def pool_size():
+    """Scheduling only (the split into 64 chunks and the merge order do not depend on it): on a machine that is already
+    oversubscribed a large forked pool was measured to be slower than a small one."""
+    import os
+
+    try:
+        load = os.getloadavg()[0]
+    except OSError:
+        load = 0.0
+    return par.NPROC if load < par.NPROC else max(2, par.NPROC // 4)
 
 
 def replay(case, t, verbose=False):
